@@ -1488,6 +1488,8 @@ static bool embed_reaches(sexp from, sexp target) {
   return false;
 }
 
+static bool g_check_release = false;   // knob (C10): what the embedder released must not stay a collector root
+
 static std::string run_embed_script(sexp ctx, sexp env, const js::Value& script) {
   sexp_gc_var4(r0, r1, r2, r3);
   sexp r4 = SEXP_VOID, r5 = SEXP_VOID, r6 = SEXP_VOID, r7 = SEXP_VOID, t1 = SEXP_VOID, t2 = SEXP_VOID;
@@ -1500,6 +1502,7 @@ static std::string run_embed_script(sexp ctx, sexp env, const js::Value& script)
   sexp* R[8] = {&r0, &r1, &r2, &r3, &r4, &r5, &r6, &r7};
   for (int i = 0; i < 8; ++i) *R[i] = SEXP_NULL;
   std::vector<sexp> kept;   // objects handed to sexp_preserve_object and then dropped from the registers
+  std::set<sexp> ever_kept;
   for (auto& opv : script.a) {
     const js::Value& o = *opv;
     if (o.kind != js::Value::Arr || o.a.size() < 4) continue;
@@ -1528,14 +1531,28 @@ static std::string run_embed_script(sexp ctx, sexp env, const js::Value& script)
     else if (op == "eval") *R[d] = sexp_eval_string(ctx, text.c_str(), -1, env);
     else if (op == "read") *R[d] = sexp_read_from_string(ctx, text.c_str(), -1);
     else if (op == "write") { t1 = sexp_write_to_string(ctx, *R[a]); *R[d] = t1; }
-    else if (op == "keep") { sexp_preserve_object(ctx, *R[a]); kept.push_back(*R[a]); *R[a] = SEXP_NULL; }
+    else if (op == "keep") { sexp_preserve_object(ctx, *R[a]); kept.push_back(*R[a]); if (sexp_pointerp(*R[a])) ever_kept.insert(*R[a]); *R[a] = SEXP_NULL; }
     else if (op == "release") { if (!kept.empty()) { *R[d] = kept.back(); sexp_release_object(ctx, kept.back()); kept.pop_back(); } }
+    else if (op == "release0") { if (!kept.empty()) { *R[d] = kept.front(); sexp_release_object(ctx, kept.front()); kept.erase(kept.begin()); } }
+    else if (op == "bigvec") { *R[d] = sexp_make_vector(ctx, sexp_make_fixnum((num & 0xffff) + 1), SEXP_ZERO); }
     else if (op == "churn") { for (int64_t k = 0; k < (num & 255); ++k) { t1 = sexp_cons(ctx, sexp_make_fixnum(k), SEXP_NULL); t2 = sexp_c_string(ctx, "junk", -1); } }
   }
   std::string out;
   for (int i = 0; i < 8; ++i) { out += write_to_string(ctx, *R[i]); out += "\n"; }
   for (size_t i = 0; i < kept.size(); ++i) { out += "kept: " + write_to_string(ctx, kept[i]) + "\n"; }
   for (auto k : kept) sexp_release_object(ctx, k);
+  if (g_check_release) {
+    // every sexp_preserve_object of this script has been undone by a sexp_release_object: none of those objects may still be on the
+    // context's list of preserved objects (it would stay a root, and its memory would never be recycled)
+    size_t left = 0;
+    for (sexp ls = sexp_global(ctx, SEXP_G_PRESERVATIVES); sexp_pairp(ls); ls = sexp_cdr(ls))
+      if (ever_kept.count(sexp_car(ls))) ++left;
+    if (left) {
+      char msg[160];
+      snprintf(msg, sizeof msg, "%zu object(s) released with sexp_release_object are still on the preserved-objects list (of %zu preserved by the script)", left, ever_kept.size());
+      W.violate("heap:released-object-still-rooted", msg);
+    }
+  }
   sexp_gc_release4(ctx);   // releases back to the state before r0 (the chain is LIFO: releasing the first group drops the rest)
   return out;
 }
@@ -1579,6 +1596,7 @@ static void run_plan(const js::Value& plan) {
   }
   capture_install(ctx, env);
   g_base_fds = count_open_fds();
+  g_check_release = knobs && knobs->getb("check_release", false);
   g_close_fail.clear(); g_close_calls = 0;
   if (knobs && knobs->get("close_fail")) for (auto& e : knobs->get("close_fail")->a) g_close_fail.insert((uint64_t)e->i);
   g_fd_track = true;
